@@ -1,3 +1,4 @@
+\* X02 lock-level model of pre_go17.go: 3 goroutines, one call each (CancelFunc / WithCancel), every tree of the setup bound, every interleaving
 SPECIFICATION Spec
 CONSTANTS
   NP = 3
